@@ -363,6 +363,193 @@ example : recordAt true 4 (Slice.ofArray #[4,0,0,0, 2,0,0,0, 7,0,0,0, 97,98,99,0
     = some (7, ⟨#[4,0,0,0, 2,0,0,0, 7,0,0,0, 97,98,99,0, 1,2,0,0], 12, 16⟩,
             ⟨#[4,0,0,0, 2,0,0,0, 7,0,0,0, 97,98,99,0, 1,2,0,0], 16, 18⟩, 20) := by decide
 example : padUp 4 13 = 16 ∧ padUp 4 16 = 16 ∧ padUp 3 7 = 9 := by decide
+/-! ## Round trip: the notes an encoder lays out are the notes the iterator yields -/
+
+/-- an abstract note record: type word, name bytes, descriptor bytes -/
+structure RawNote where
+  ntype : Nat
+  name : List Nat
+  desc : List Nat
+
+def enc4 (le : Bool) (v : Nat) : List Nat := if le then C04.encodeLE 4 v else C04.encodeBE 4 v
+
+/-- **The ABI encoding of one record placed at offset `off`**: three 32-bit words (name size,
+    descriptor size, type) in the file's byte order, the name, zero padding up to `align`, the
+    descriptor, zero padding up to `align`. -/
+def encodeNote (le : Bool) (align off : Nat) (r : RawNote) : List Nat :=
+  let nameEnd := off + 12 + r.name.length
+  let descStart := padUp align nameEnd
+  let descEnd := descStart + r.desc.length
+  enc4 le r.name.length ++ (enc4 le r.desc.length ++ (enc4 le r.ntype ++ (r.name ++
+    (List.replicate (descStart - nameEnd) 0 ++ (r.desc ++ List.replicate (padUp align descEnd - descEnd) 0)))))
+
+/-- records one after the other, the first at `off` -/
+def encodeNotes (le : Bool) (align : Nat) : Nat → List RawNote → List Nat
+  | _, [] => []
+  | off, r :: rs => encodeNote le align off r ++ encodeNotes le align (off + (encodeNote le align off r).length) rs
+
+theorem enc4_length (le : Bool) (v : Nat) : (enc4 le v).length = 4 := by
+  unfold enc4; cases le <;> simp [C04.encodeLE_length, C02.encodeBE_length]
+
+theorem le_padUp (align x : Nat) : x ≤ padUp align x := by
+  unfold padUp; split <;> omega
+
+theorem encodeNote_length (le : Bool) (align off : Nat) (r : RawNote) :
+    off + (encodeNote le align off r).length =
+      padUp align (padUp align (off + 12 + r.name.length) + r.desc.length) := by
+  have h1 := le_padUp align (off + 12 + r.name.length)
+  have h2 := le_padUp align (padUp align (off + 12 + r.name.length) + r.desc.length)
+  simp only [encodeNote, List.length_append, enc4_length, List.length_replicate]
+  omega
+
+/-- the records `recordAt` finds back to back, before their typed reading -/
+def rawLayout (le : Bool) (align : Nat) (d : Slice) : Nat → Nat → List (Nat × Slice × Slice)
+  | 0, _ => []
+  | fuel + 1, off =>
+    match recordAt le align d off with
+    | some (ntype, name, desc, nx) => (ntype, name, desc) :: rawLayout le align d fuel nx
+    | none => []
+
+/-- typed reading of a list of raw records, ending at the first that fails -/
+def typedPrefix (le : Bool) (cls : Class) : List (Nat × Slice × Slice) → List Note
+  | [] => []
+  | (t, n, de) :: xs =>
+    match typeNote le cls t n de with
+    | .ok note => note :: typedPrefix le cls xs
+    | _ => []
+
+theorem layout_eq_typed (le : Bool) (cls : Class) (align : Nat) (d : Slice) (fuel off : Nat) :
+    layout le cls align d fuel off = typedPrefix le cls (rawLayout le align d fuel off) := by
+  induction fuel generalizing off with
+  | zero => rfl
+  | succ n ih =>
+    unfold layout rawLayout
+    cases hr : recordAt le align d off with
+    | none => rfl
+    | some r =>
+      obtain ⟨t, nm, de, nx⟩ := r
+      simp only [typedPrefix]
+      cases typeNote le cls t nm de with
+      | ok note => simp only [ih nx]
+      | err e => rfl
+      | panic => rfl
+
+/-- the window has exactly these bytes -/
+def Holds (s : Slice) (bs : List Nat) : Prop := s.len = bs.length ∧ C04.HoldsAt s 0 bs
+
+def RawMatches : List (Nat × Slice × Slice) → List RawNote → Prop
+  | [], [] => True
+  | (t, n, de) :: xs, r :: rs => t = r.ntype ∧ Holds n r.name ∧ Holds de r.desc ∧ RawMatches xs rs
+  | _, _ => False
+
+theorem holdsAt_window (d : Slice) (a b : Nat) (bs : List Nat) (i : Nat) (h : C04.HoldsAt d (a + i) bs) :
+    C04.HoldsAt ⟨d.buf, d.start + a, b⟩ i bs := by
+  induction bs generalizing i with
+  | nil => trivial
+  | cons x xs ih =>
+    obtain ⟨h1, h2⟩ := h
+    refine ⟨?_, ih (i + 1) (by rw [← Nat.add_assoc]; exact h2)⟩
+    rw [← h1]; unfold Slice.byte; simp only [Nat.add_assoc]
+
+def InWord (r : RawNote) : Prop := r.name.length < 2 ^ 32 ∧ r.desc.length < 2 ^ 32 ∧ r.ntype < 2 ^ 32
+
+/-- **decode ∘ encode = id for note sections**: if the window holds, from `off` to its end, the
+    encoding of the records `rs`, the back-to-back layout from `off` is exactly `rs` — same number of
+    records, same types, name and descriptor windows holding exactly the encoded bytes. -/
+theorem rawLayout_of_encoding (le : Bool) (align : Nat) (d : Slice) (husz : d.len < USZ)
+    (rs : List RawNote) (off fuel : Nat) (hr : ∀ r ∈ rs, InWord r)
+    (h : C04.HoldsAt d off (encodeNotes le align off rs))
+    (hlen : d.len = off + (encodeNotes le align off rs).length) (hfuel : rs.length < fuel) :
+    RawMatches (rawLayout le align d fuel off) rs := by
+  induction rs generalizing off fuel with
+  | nil =>
+    cases fuel with
+    | zero => exact absurd hfuel (by simp)
+    | succ n =>
+      simp only [encodeNotes, List.length_nil, Nat.add_zero] at hlen
+      have : recordAt le align d off = none := by
+        unfold recordAt
+        have : ¬ off + 12 ≤ d.len := by omega
+        simp [this]
+      simp [rawLayout, this, RawMatches]
+  | cons r rs ih =>
+    cases fuel with
+    | zero => exact absurd hfuel (by simp)
+    | succ n =>
+      obtain ⟨hn, hd, ht⟩ := hr r (List.mem_cons_self ..)
+      simp only [encodeNotes] at h hlen
+      rw [C04.holdsAt_append] at h
+      obtain ⟨hrec, hrest⟩ := h
+      have hL := encodeNote_length le align off r
+      rw [List.length_append] at hlen
+      -- split the record's encoding
+      simp only [encodeNote] at hrec
+      rw [C04.holdsAt_append] at hrec; obtain ⟨hw1, hrec⟩ := hrec
+      rw [C04.holdsAt_append] at hrec; obtain ⟨hw2, hrec⟩ := hrec
+      rw [C04.holdsAt_append] at hrec; obtain ⟨hw3, hrec⟩ := hrec
+      rw [C04.holdsAt_append] at hrec; obtain ⟨hname, hrec⟩ := hrec
+      rw [C04.holdsAt_append] at hrec; obtain ⟨_, hrec⟩ := hrec
+      rw [C04.holdsAt_append] at hrec; obtain ⟨hdesc, _⟩ := hrec
+      simp only [enc4_length, List.length_replicate] at hw2 hw3 hname hdesc
+      have e1 : decode le d off 4 = r.name.length := C04.decode_encode le d off 4 _ (by simpa using hn) hw1
+      have e2 : decode le d (off + 4) 4 = r.desc.length := C04.decode_encode le d (off + 4) 4 _ (by simpa using hd) hw2
+      have e3 : decode le d (off + 8) 4 = r.ntype :=
+        C04.decode_encode le d (off + 8) 4 _ (by simpa using ht) (by rw [Nat.add_assoc] at hw3; exact hw3)
+      have p1 := le_padUp align (off + 12 + r.name.length)
+      have p2 := le_padUp align (padUp align (off + 12 + r.name.length) + r.desc.length)
+      have hrA : recordAt le align d off = some (r.ntype,
+          ⟨d.buf, d.start + (off + 12), d.start + (off + 12 + r.name.length)⟩,
+          ⟨d.buf, d.start + padUp align (off + 12 + r.name.length),
+            d.start + (padUp align (off + 12 + r.name.length) + r.desc.length)⟩,
+          padUp align (padUp align (off + 12 + r.name.length) + r.desc.length)) := by
+        unfold recordAt
+        simp only [e1, e2, e3]
+        have c1 : off + 12 ≤ d.len := by omega
+        have c2 : off + 12 + r.name.length ≤ d.len ∧
+            padUp align (off + 12 + r.name.length) + r.desc.length ≤ d.len ∧
+            padUp align (padUp align (off + 12 + r.name.length) + r.desc.length) < USZ := by
+          refine ⟨by omega, by omega, by omega⟩
+        simp only [c1, c2, and_self, if_true]
+      simp only [rawLayout, hrA, RawMatches]
+      refine ⟨trivial, ⟨by simp only [Slice.len]; omega, ?_⟩, ⟨by simp only [Slice.len]; omega, ?_⟩, ?_⟩
+      · apply holdsAt_window; simpa [Nat.add_assoc] using hname
+      · apply holdsAt_window
+        have : off + 4 + 4 + 4 + r.name.length + (padUp align (off + 12 + r.name.length) - (off + 12 + r.name.length))
+            = padUp align (off + 12 + r.name.length) := by omega
+        rw [this] at hdesc; simpa using hdesc
+      · rw [← hL]
+        exact ih (off + (encodeNote le align off r).length) n (fun x hx => hr x (List.mem_cons_of_mem _ hx)) hrest
+          (by omega) (by simpa using hfuel)
+
+/-- …so **iterating a window that holds the encoding of `rs` yields the typed reading of exactly
+    those records**, in order (as the crate builds the iterator: offset 0). -/
+theorem iterate_encoding (le : Bool) (cls : Class) (align : Nat) (d : Slice) (ha : align ≠ 0) (hlen63 : d.len < 2 ^ 63)
+    (rs : List RawNote) (hr : ∀ r ∈ rs, InWord r)
+    (h : C04.HoldsAt d 0 (encodeNotes le align 0 rs)) (hlen : d.len = (encodeNotes le align 0 rs).length) :
+    ∃ raws, RawMatches raws rs ∧ (NoteIter.collect ⟨le, cls, align, d, 0⟩).1 = .ok (typedPrefix le cls raws) := by
+  refine ⟨rawLayout le align d (d.len + 1) 0, ?_, ?_⟩
+  · have hfl : rs.length < d.len + 1 := by
+      -- every record is at least 12 bytes
+      have : ∀ (rs : List RawNote) (off : Nat), rs.length ≤ (encodeNotes le align off rs).length := by
+        intro rs
+        induction rs with
+        | nil => intro _; simp [encodeNotes]
+        | cons r rs ih =>
+          intro off
+          have := ih (off + (encodeNote le align off r).length)
+          have h12 : 12 ≤ (encodeNote le align off r).length := by
+            simp only [encodeNote, List.length_append, enc4_length]; omega
+          simp only [encodeNotes, List.length_append, List.length_cons]; omega
+      have := this rs 0
+      omega
+    exact rawLayout_of_encoding le align d (by unfold USZ; omega) rs 0 (d.len + 1) hr h
+      (by simpa using hlen) hfl
+  · rw [iteration_is_layout le cls align d ha hlen63, layout_eq_typed]
+
+/- Non-vacuity: two records, align 4, little-endian -/
+example : encodeNotes true 4 0 [⟨7, [97, 98, 99, 0], [1, 2]⟩, ⟨9, [], []⟩] =
+    [4,0,0,0, 2,0,0,0, 7,0,0,0, 97,98,99,0, 1,2,0,0, 0,0,0,0, 0,0,0,0, 9,0,0,0] := by decide
+
 /- two records back to back (align 4, LSB): "abc\0"/[1,2] type 7, then a bare 12-byte header of type 9 -/
 example : (layout true .ELF64 4 (Slice.ofArray #[4,0,0,0, 2,0,0,0, 7,0,0,0, 97,98,99,0, 1,2,0,0,
                                                   0,0,0,0, 0,0,0,0, 9,0,0,0]) 33 0).length = 2 := by decide
